@@ -59,7 +59,43 @@ def doc_sets():
     sets.append([c])
     sets.append([docs.doc_of([], author="x")])
     sets.append([a, b, c])
+    # values with a blank at either end next to the same text without it, and attribute values that are not text
+    # (Document(version=42) and Document(version=0.9) are how the library's own documentation writes them)
+    e = docs.doc_of([
+        S("x ", "x", definition=" x", props=[P("x", [1], "int", unit=" y"), P("x ", [2], "int", unit="y")]),
+        S("x", "x ", definition="x", props=[P(" x", [3], "int", unit="y "), P("y", [4], "int", unit="y")]),
+        S(" x", " x", props=[P("x", ["a"], "string")])],
+        author="x ", version=42)
+    f = docs.doc_of([S("x", "x", definition="x ", props=[P("x", [5], "int", unit="y")])], author="x", version="42")
+    g = docs.doc_of([S("x", "x", props=[P("x ", [6], "int", unit=" y")])], author=" x", version=0.9)
+    sets.append([e, f, g])
     return sets
+
+
+SPECIAL_SETS = (6,)         # the sets above that come with their own query values
+
+
+def special_queries(K):
+    values = {"author": ["x", "x ", " x"], "version": ["42", "0.9", "x"], "name": ["x", "x ", " x"], "type": ["x", "x ", " x"],
+              "definition": ["x", "x ", " x"], "unit": ["y", "y ", " y"], "dtype": ["int"]}
+    attrs = {"Doc": ["author", "version"], "Sec": ["name", "type", "definition"], "Prop": ["name", "unit", "dtype"]}
+    queries = []
+    for kind in ("Doc", "Sec", "Prop"):
+        for n in range(1, K + 1):
+            for sub in itertools.combinations(attrs[kind], n):
+                for vals in itertools.product(*[values[a] for a in sub]):
+                    queries.append([(kind, (a, v)) for a, v in zip(sub, vals)])
+    for d in [("version", "42"), ("version", "0.9"), ("author", "x "), ("author", "x")]:
+        for sec in [("name", "x"), ("name", "x "), ("type", " x")]:
+            queries.append([("Doc", d), ("Sec", sec)])
+    for sec in [("name", "x"), ("name", "x "), ("name", " x")]:
+        for pr in [("name", "x"), ("name", "x "), ("unit", " y"), ("unit", "y")]:
+            queries.append([("Sec", sec), ("Prop", pr)])
+    for d in [("version", "42"), ("author", " x")]:
+        for sec in [("name", "x"), ("name", "x ")]:
+            for pr in [("name", "x "), ("unit", "y")]:
+                queries.append([("Doc", d), ("Sec", sec), ("Prop", pr)])
+    return queries
 
 
 # --------------------------------------------------------------------------- reference evaluation
@@ -247,11 +283,14 @@ def gen_cases(tier):
              ({"Sec": ["type"], "Prop": ["unit"]}, ["x", "y"]), ({"Doc": ["author", "version"], "Sec": ["name"]}, ["y"]),
              ({"Prop": ["name", "unit", "definition"]}, ["x", "y"] if tier == "thorough" else ["y"]),
              ({"Sec": ["name"]}, ["z"])]
+    fuzzy_special = [({"Sec": ["name", "type"]}, ["x", "x "]), ({"Prop": ["name", "unit"]}, [" y", "x "]),
+                     ({"Doc": ["author", "version"]}, ["42", " x"]), ({"Doc": ["version"], "Sec": ["name"]}, ["0.9", "x"])]
     cases = []
     for si in range(len(sets)):
-        for chunk in par.chunks(queries, 12 if tier == "quick" else 40):
+        qs = special_queries(K) if si in SPECIAL_SETS else queries
+        for chunk in par.chunks(qs, 12 if tier == "quick" else 40):
             cases.append({"set": si, "queries": chunk, "fuzzy": []})
-        cases.append({"set": si, "queries": [], "fuzzy": fuzzy})
+        cases.append({"set": si, "queries": [], "fuzzy": fuzzy_special if si in SPECIAL_SETS else fuzzy})
     return cases
 
 
@@ -375,6 +414,8 @@ def run_case(case):
         current = {"queries": [], "fuzzy": [[sel, terms]]}
         pairs = [(k, (a, t)) for k in ("Doc", "Sec", "Prop") if k in sel for a in sel[k] for t in terms]
         for style in ("string", "dict"):
+            if style == "string" and any(t != t.strip() for t in terms):
+                continue        # 'HAVING a, b' separates terms by comma and blank: such a term has no string form
             try:
                 if style == "string":
                     q = "FIND " + " ".join("%s(%s)" % (KIND_WORD[k], ", ".join(sel[k])) for k in ("Doc", "Sec", "Prop") if k in sel)
@@ -400,6 +441,7 @@ def check(tier):
         "queries with Document and Property pairs but no Section pair are executed but not judged (kinds are related by direct "
         "containment only); 'value' searches are not part of the quantifier",
         "a combination that contains two different values for one attribute of one kind has no matching object and must not be reported",
+        "fuzzy terms with a blank at either end are passed by dictionary only (the 'HAVING a, b' form separates by comma and blank)",
     ])
     cases = gen_cases(tier)
     run.bounds = {"pairs_per_kind": 2 if tier == "quick" else 3, "document_sets": len(doc_sets())}
